@@ -310,6 +310,8 @@ def run_check(check, tier, seed, replay=None):
         cov = {"states": states, "transitions": transitions, "traces_validated_against_impl": executions,
                "samples": samples or [["(no trace recorded)"]],
                "exhaustive": all(e.get("completed", True) for e in model_report if e["expect"] == "ok" and e["mode"] == "bfs") and bool(models),
+               "exhaustive_scope": "the model configurations listed under `models` with mode bfs and completed true were enumerated completely by TLC; "
+                                   "the recorded executions of the implementation are a sample (see rule)",
                "models": model_report, "trace_lines_checked": lines_total, "trace_files": len(traces),
                "trace_event_counts": counts, "model_conformant": len(drifts) == 0, "model_drifts": len(drifts),
                "not_exercised": sorted(set(not_exercised)), "known_findings_hit": sorted(printed),
